@@ -87,3 +87,41 @@ class Ob:
 def slices(name, fn, var, values, **kw) -> List['Ob']:
     return [Ob(f'{name}[{var}={v}]', fn, slice={var: v}, **kw)
             for v in values]
+
+
+def within(**vals) -> bool:
+    """Pre-condition helper: every value lies in its box SLICE['B'][name].
+
+    The box travels in the obligation's slice, so evidence shows the bounds
+    each obligation was decided for verbatim.
+    """
+    box = SLICE['B']
+    for name, v in vals.items():
+        lo, hi = box[name]
+        if not (lo <= v <= hi):
+            return False
+    return True
+
+
+class concrete:
+    """Context manager: run the enclosed set-up natively (untraced).
+
+    Under CrossHair this is ``NoTracing`` - the block must not touch symbolic
+    values (it builds fixtures: pools, task proxies, managers).  In a plain
+    replay it does nothing.
+    """
+
+    def __enter__(self):
+        self._cm = None
+        import sys
+        if 'crosshair.tracers' in sys.modules:
+            from crosshair.tracers import NoTracing, is_tracing
+            if is_tracing():
+                self._cm = NoTracing()
+                self._cm.__enter__()
+        return self
+
+    def __exit__(self, *exc):
+        if self._cm is not None:
+            return self._cm.__exit__(*exc)
+        return False
